@@ -316,7 +316,8 @@ var thematicBreakRegexp,
 	html5Regexp,
 	html5CloserRegexp,
 	html6Regexp,
-	html7Regexp *regexp.Regexp
+	html7Regexp,
+	html7ExcludedRegexp *regexp.Regexp
 
 // Inline regexps.
 var uriAutolinkRegexp,
@@ -384,6 +385,8 @@ func initRegexps() {
 	html6Regexp = regexp.MustCompile(`^ {0,3}</?(?i:address|article|aside|base|basefont|blockquote|body|caption|center|col|colgroup|dd|details|dialog|dir|div|dl|dt|fieldset|figcaption|figure|footer|form|frame|frameset|h1|h2|h3|h4|h5|h6|head|header|hr|html|iframe|legend|li|link|main|menu|menuitem|nav|noframes|ol|optgroup|option|p|param|search|section|summary|table|tbody|td|tfoot|th|thead|title|tr|track|ul)(?:[ \t>]|$|/>)`)
 	html7Regexp = regexp.MustCompile(
 		fmt.Sprintf(`^ {0,3}(?:%s|%s)[ \t]*$`, openTag, closingTag))
+	// Start condition 7 excludes the tag names of start condition 1.
+	html7ExcludedRegexp = regexp.MustCompile(`^ {0,3}</?(?i:pre|script|style|textarea)(?:[ \t\n>]|/>)`)
 
 	// https://spec.commonmark.org/0.31.2/#uri-autolink
 	uriAutolinkRegexp = regexp.MustCompile(
@@ -466,7 +469,7 @@ func (p *blockParser) render() {
 		} else if html5Regexp.MatchString(line) {
 			p.tree.closeBlocks(matchedContainers, lineNo, p.codec)
 			p.parseCloserTerminatedHTMLBlock(line, html5CloserRegexp.MatchString)
-		} else if html6Regexp.MatchString(line) || (len(p.tree.paragraph) == 0 && html7Regexp.MatchString(line)) {
+		} else if html6Regexp.MatchString(line) || (len(p.tree.paragraph) == 0 && html7Regexp.MatchString(line) && !html7ExcludedRegexp.MatchString(line)) {
 			p.tree.closeBlocks(matchedContainers, lineNo, p.codec)
 			p.parseBlankLineTerminatedHTMLBlock(line)
 		} else {
